@@ -359,6 +359,19 @@ fn check_faults(c: &FaultCase, cx: &mut Cx) -> Res {
 
 fn check_special(which: &usize, cx: &mut Cx) -> Res {
     cx.nt();
+    if *which >= 36 {
+        // Tera's own built-in functions are reachable from every template.  get_random() with an empty
+        // range panics inside the `rand` crate (F30); the other calls must keep the process contract
+        let t = ["{{ get_random(start=5, end=1) }}", "{{ get_random(start=1, end=1) }}", "{{ get_random(start=0, end=1) }}", "{{ range(end=3) | length }}", "{{ throw(message=\"x\") }}", "{{ get_env(name=\"ZV_NO_SUCH_VARIABLE\") }}"][(*which - 36) % 6];
+        let o = proc::run(&proc::Spec { args: cli::sv(&["render", "1.2.3", "--output-template", t]), ..Default::default() });
+        let what = format!("render 1.2.3 --output-template {t:?}");
+        cx.note(|| format!("{what}: exit {:?}, stdout {:?}", o.code, o.out_str()));
+        if t.contains("get_random(") && o.code == Some(101) && o.err_str().contains("cannot sample empty range") {
+            return Err(Bad::Known("F30", format!("{what}: Tera's built-in get_random() panics on an empty range (exit 101)")));
+        }
+        contract(&o, &what)?;
+        return Ok(());
+    }
     if *which >= 30 {
         // a hand-written document whose custom value is nested deeper than anything zerv writes itself:
         // refused cleanly, or read and answered with the requested result - never a serialisation
@@ -606,8 +619,8 @@ pub fn property() -> Property {
     )
     .shrink_iters(20);
     let deep = RandomSub::<DeepCase>::new("deep-templates", (320, 6_000), |_| deep_case(), check_deep).shrink_iters(60).floor(0.3);
-    let special = EnumSub::<usize>::new("special-states", "8 environment faults (-C not a repository / nonexistent, repository without commits (version, flow), git missing from PATH (two ways), dangling gitdir file, corrupt HEAD) and 6 unusual healthy repositories (shallow clones with the tag inside / outside the history, with -v, flow; a linked work tree; a bare clone; four commits carrying several names of one version; six commands whose stdout is /dev/full; six command lines with an argument that is not valid UTF-8; stdin documents whose custom value is nested 40 .. 200 000 deep)", |_t, shard, n, visit| {
-        for i in 0..36usize {
+    let special = EnumSub::<usize>::new("special-states", "8 environment faults (-C not a repository / nonexistent, repository without commits (version, flow), git missing from PATH (two ways), dangling gitdir file, corrupt HEAD) and 6 unusual healthy repositories (shallow clones with the tag inside / outside the history, with -v, flow; a linked work tree; a bare clone; four commits carrying several names of one version; six commands whose stdout is /dev/full; six command lines with an argument that is not valid UTF-8; stdin documents whose custom value is nested 40 .. 200 000 deep; six calls of Tera's own built-in functions)", |_t, shard, n, visit| {
+        for i in 0..42usize {
             if i % n == shard && !visit(&i) {
                 return;
             }
@@ -633,6 +646,7 @@ pub fn property() -> Property {
             ("F17", "deep-templates", serde_json::json!({"kind": 0, "depth": 30000, "site": 0})),
             ("F18", "deep-templates", serde_json::json!({"kind": 8, "depth": 16, "site": 0})),
             ("F23", "deep-templates", serde_json::json!({"kind": 10, "depth": 1, "site": 0})),
+            ("F30", "special-states", serde_json::json!(36)),
         ],
     }
 }
